@@ -124,6 +124,13 @@ func (l *lexer) next() {
 		for l.pos < len(l.s) && (unicode.IsLetter(rune(l.s[l.pos])) || unicode.IsDigit(rune(l.s[l.pos])) || l.s[l.pos] == '_') {
 			l.pos++
 		}
+		// name#k: the k-th definition of a local that is assigned several times
+		if l.pos+1 < len(l.s) && l.s[l.pos] == '#' && unicode.IsDigit(rune(l.s[l.pos+1])) {
+			l.pos++
+			for l.pos < len(l.s) && unicode.IsDigit(rune(l.s[l.pos])) {
+				l.pos++
+			}
+		}
 		l.tok, l.kind = l.s[start:l.pos], "id"
 	case unicode.IsDigit(rune(c)):
 		for l.pos < len(l.s) && unicode.IsDigit(rune(l.s[l.pos])) {
